@@ -26,4 +26,8 @@ class Prop(PropBase):
             nf = rng.choice([1, 2, 3, 4, 6]) if tier == "quick" else rng.choice([2, 4, 8, 16, 40])
             line = sg.frames(rng, nf)
             cs.append(Case(line, tag="frames", nontrivial=line.count(" dr") >= 2, cfgs=[rng.choice(CFGS) for _ in range(2)]))
+        for line, cf in sg.large_canvas_edits(rng, CFGS):
+            cs.append(Case(line, sweep="large-canvas-edits", cfgs=cf))
+        for line, cf in sg.glyph_byte_edits(CFGS_NOIMM if "CFGS_NOIMM" in globals() else CFGS):
+            cs.append(Case(line, sweep="glyph-byte-edits", cfgs=cf))
         return cs
